@@ -5,6 +5,7 @@ package props
 
 import (
 	"bytes"
+	"context"
 	"errors"
 	"fmt"
 	"io"
@@ -36,6 +37,9 @@ type ClientCfg struct {
 	Debug       bool     `json:"debug,omitempty"`
 	LogAuthData bool     `json:"logAuthData,omitempty"`
 	Logger      string   `json:"logger,omitempty"` // capture | std | json
+	// FallbackPort configures the TLS policy through WithTLSPortPolicy, which also sets a
+	// fallback port that is dialled when the first dial fails.
+	FallbackPort bool `json:"fallbackPort,omitempty"`
 }
 
 func (c ClientCfg) host() string {
@@ -57,9 +61,17 @@ func BuildClient(c ClientCfg, dial mail.DialContextFunc, logger mlog.Logger) (*m
 	opts := []mail.Option{mail.WithDialContextFunc(dial), mail.WithPort(25), mail.WithTimeout(c.timeout())}
 	switch c.TLSPolicy {
 	case "", "mandatory":
-		opts = append(opts, mail.WithTLSPolicy(mail.TLSMandatory))
+		if c.FallbackPort {
+			opts = append(opts, mail.WithTLSPortPolicy(mail.TLSMandatory))
+		} else {
+			opts = append(opts, mail.WithTLSPolicy(mail.TLSMandatory))
+		}
 	case "opportunistic":
-		opts = append(opts, mail.WithTLSPolicy(mail.TLSOpportunistic))
+		if c.FallbackPort {
+			opts = append(opts, mail.WithTLSPortPolicy(mail.TLSOpportunistic))
+		} else {
+			opts = append(opts, mail.WithTLSPolicy(mail.TLSOpportunistic))
+		}
 	case "none":
 		opts = append(opts, mail.WithTLSPolicy(mail.NoTLS))
 	case "implicit":
@@ -123,6 +135,30 @@ type ContentSpec struct {
 	FailAt int  `json:"failAt,omitempty"`
 	// FailOnCall: which invocation of the producer fails (1-based); 0 = every invocation.
 	FailOnCall int `json:"failOnCall,omitempty"`
+	// ErrKind selects the identity of the error the producer fails with: "" (a plain sentinel) |
+	// eof | wrapped-eof | unexpected-eof | short-write | closed | canceled
+	ErrKind string `json:"errKind,omitempty"`
+}
+
+// ErrKinds are the producer error identities the workloads draw from.
+var ErrKinds = []string{"", "eof", "wrapped-eof", "unexpected-eof", "short-write", "closed", "canceled"}
+
+func (c ContentSpec) failErr() error {
+	switch c.ErrKind {
+	case "eof":
+		return io.EOF
+	case "wrapped-eof":
+		return fmt.Errorf("reading the source: %w", io.EOF)
+	case "unexpected-eof":
+		return io.ErrUnexpectedEOF
+	case "short-write":
+		return io.ErrShortWrite
+	case "closed":
+		return fs.ErrClosed
+	case "canceled":
+		return fmt.Errorf("producer: %w", context.Canceled)
+	}
+	return ErrInjected
 }
 
 // PartSpec is a body part.
@@ -236,7 +272,7 @@ func (p *Producer) WriteFunc(w io.Writer) (int64, error) {
 	}
 	if fail {
 		p.Fired++
-		return int64(p.Emitted), ErrInjected
+		return int64(p.Emitted), p.Spec.failErr()
 	}
 	return int64(p.Emitted), nil
 }
@@ -247,12 +283,16 @@ type faultReader struct {
 	p   *Producer
 	pos int
 	ci  int
-	// started marks the beginning of a pass (pos==0 read)
+	// inPass: a pass (one invocation of the producer) runs from the first Read after creation, an
+	// error or EOF up to the next error or EOF — wherever the reader happens to be positioned,
+	// so that a consumer that forgets to rewind is not mistaken for one that never read
+	inPass bool
 }
 
 func (r *faultReader) Read(b []byte) (int, error) {
 	p := r.p
-	if r.pos == 0 {
+	if !r.inPass {
+		r.inPass = true
 		p.Calls++
 		p.Emitted = 0
 	}
@@ -263,9 +303,14 @@ func (r *faultReader) Read(b []byte) (int, error) {
 		limit = p.Spec.FailAt
 	}
 	if r.pos >= limit {
+		r.inPass = false
 		if fail {
 			p.Fired++
-			return 0, ErrInjected
+			if e := p.Spec.failErr(); e != io.EOF {
+				// a Reader that "fails" with io.EOF just ends; that is a short file, not an error
+				return 0, e
+			}
+			return 0, io.ErrUnexpectedEOF
 		}
 		return 0, io.EOF
 	}
